@@ -229,10 +229,25 @@ func solveAll(jobs []job, dir string, secs, par int) {
 				if !j.o.Cover && r.result != "unsat" && r.result != "sat" {
 					// undecided: one retry with three times the budget before it is reported (keeps the unchanged
 					// tree free of alarms caused by machine load)
+					// the retry races the full query with its background-free relaxation (unsat of either proves the goal)
+					var rb solveResult
+					done := make(chan struct{})
+					if qs, changed := stripBackground(q); changed {
+						go func() {
+							rb = solve(qs, dir, fmt.Sprintf("%04d_%s.nobg-retry", idx, j.o.Name), 3*s2, "")
+							close(done)
+						}()
+					} else {
+						close(done)
+					}
 					r2 := solve(q, dir, fmt.Sprintf("%04d_%s.retry", idx, j.o.Name), 3*s2, "")
+					<-done
 					if r2.result == "unsat" || r2.result == "sat" {
 						r2.backend += "(retry)"
 						r = r2
+					} else if rb.result == "unsat" {
+						rb.backend += "(nobg,retry)"
+						r = rb
 					}
 				}
 			}
